@@ -525,6 +525,10 @@ func orderable(t types.Type, depth int) bool {
 		return true
 	case *types.Array:
 		return orderable(u.Elem(), depth+1)
+	case *types.Pointer, *types.Interface:
+		// rendered through the pointee (simrt.keyString): deterministic as long as the objects
+		// differ in a leading, address-free field (names, ids)
+		return depth == 0
 	}
 	return false
 }
